@@ -141,6 +141,34 @@ def main(tier, seed):
                              exported_dict=d, loaded_back=back, yaml=text), tag='yaml%s' % tag)
             n_viol += 1
         r = iofam.impl_import_text(text)
+        if rng.random() < 0.2:
+            # the documented file variants: export_to_yaml(sc, filepath=) writes what it returns, import_from_yaml(filepath=)
+            # reads what import_from_yaml(text) is given
+            import tempfile
+            from sismic.io import import_from_yaml
+            stats['file_variants'] = stats.get('file_variants', 0) + 1
+            with tempfile.TemporaryDirectory(prefix='c11_') as td:
+                fp = os.path.join(td, 'sc.yaml')
+                try:
+                    text2 = export_to_yaml(sc, filepath=fp)
+                    on_disk = open(fp, encoding='utf-8').read() if os.path.exists(fp) else None
+                except Exception as e:  # noqa
+                    text2, on_disk = repr(e), None
+                msg = None
+                if text2 != text or on_disk != text:
+                    msg = 'export_to_yaml(sc, filepath=...) did not return and write the text export_to_yaml(sc) returns'
+                else:
+                    try:
+                        rf = ('ok', sx.chart_value(import_from_yaml(filepath=fp)))
+                    except Exception as e:  # noqa
+                        rf = ('err', type(e).__name__)
+                    rt = ('ok', sx.chart_value(r[1])) if r[0] == 'ok' else ('err', None)
+                    if rf[0] != rt[0] or (rf[0] == 'ok' and rf[1] != rt[1]):
+                        msg = 'import_from_yaml(filepath=...) does not yield what import_from_yaml(text) yields for the same text'
+                if msg:
+                    v.violation(dict(property=PROP, clause=msg + ' (C11, file variants)', yaml=text, returned=text2 if text2 != text else 'same',
+                                     on_disk=on_disk if on_disk != text else 'same'), tag='file%s' % tag)
+                    n_viol += 1
         eqc = iofam.no_edge_space(sc)
         cases.append(('(RCase %s %s %s)' % (iofam.c_chart_raw(cv), cbool(eqc), iofam.c_iores(r)),
                       dict(kind='roundtrip', tag=tag, chart=cv, yaml=text, outcome=r[0] if r[0] != 'other' else r)))
